@@ -112,7 +112,17 @@ def build_harness(name, libdir, scratch):
     src_cc = os.path.join(HARNESS, name + ".cpp")
     exe = os.path.join(scratch, name)
     inc = ["-I" + os.path.join(REPO, "include"), "-I" + os.path.join(REPO, "src"), "-I" + HARNESS]
-    if os.path.exists(src_c):
+    shim = os.path.join(HARNESS, name + "_shim.cpp")
+    if os.path.exists(src_c) and os.path.exists(shim):
+        # C harness with a C++ companion (calls into the polyxx wrappers): compile both, link with g++
+        o1 = os.path.join(scratch, name + ".o"); o2 = os.path.join(scratch, name + "_shim.o")
+        r = run(["gcc", "-std=gnu99"] + CFLAGS + ["-DHAVE_OPEN_MEMSTREAM", "-DLPV_HAVE_CXX_SHIM"] + inc + ["-c", src_c, "-o", o1])
+        if r.returncode == 0:
+            r = run(["g++", "-std=c++11"] + CFLAGS + inc + ["-I" + os.path.join(REPO, "include", "polyxx"), "-c", shim, "-o", o2])
+        if r.returncode != 0:
+            raise RuntimeError("harness %s does not compile against the current tree:\n%s" % (name, r.stdout[-4000:]))
+        cmd = ["g++"] + CFLAGS + [o1, o2, os.path.join(libdir, "libpolyxx.a"), os.path.join(libdir, "libpoly.a"), "-lgmpxx", "-lgmp", "-lm", "-o", exe]
+    elif os.path.exists(src_c):
         cmd = ["gcc", "-std=gnu99"] + CFLAGS + ["-DHAVE_OPEN_MEMSTREAM"] + inc + [src_c, os.path.join(libdir, "libpoly.a"), "-lgmp", "-lm", "-o", exe]
     else:
         cmd = ["g++", "-std=c++11"] + CFLAGS + inc + [src_cc, os.path.join(libdir, "libpolyxx.a"), os.path.join(libdir, "libpoly.a"), "-lgmpxx", "-lgmp", "-lm", "-o", exe]
